@@ -117,7 +117,10 @@ def specThunkCount (b : Bytes) (off len sz : Nat) : Out Nat :=
   | some n => .ok n
   | none => .err .bounds
 
-/-- the directory: located through data directory 1; RVA 0 = no imports -/
+/-- the directory: located through data directory 1; RVA 0 = no imports (`Null`, through `View.at`).
+An image whose data-directory array is too short to have entry 1 gets `Bounds` here, as in the code;
+the property's wording would ask for `Null` — the driver prints `hyp=0` for such images and
+`Thm/C09.lean` records the deviation (`C09_missing_entry_partial`, `C09_missing_entry_not_null`). -/
 def specTryFrom (v : View) : Out Ref :=
   match v.dataDir dirImport with
   | none => .err .bounds
